@@ -20,11 +20,16 @@ import (
 	"errors"
 	"fmt"
 	"net/mail"
+	"os"
+	"path/filepath"
 	"sort"
+	"strconv"
 	"strings"
 	"sync"
+	"time"
 	"unicode"
 
+	parser "github.com/foxcpp/maddy/framework/cfgparser"
 	"github.com/foxcpp/maddy/framework/config"
 	"github.com/foxcpp/maddy/framework/module"
 	"github.com/foxcpp/maddy/internal/authz"
@@ -40,13 +45,30 @@ import (
 // Tab describes a table module of a case.
 type Tab struct {
 	Kind string // I identity, T testutils.Table (single), S table.Static (multi), M multi with error switch,
-	// L table.email_localpart, O table.email_localpart_optional (computed, no rows)
-	Err  bool
-	Keys []string // insertion order
-	Rows map[string][]string
+	// L table.email_localpart, O table.email_localpart_optional (computed, no rows),
+	// F the real table.file: Lines = the entry lines of the file, in file order (a key may repeat:
+	// its values add up), Style = how the bytes are rendered, Path = where the file is
+	Err   bool
+	Keys  []string // insertion order
+	Rows  map[string][]string
+	Lines []Line
+	Style int
+	Path  string
+
+	memIDs []string
+}
+
+// Line is one entry line of a table file: `key: v1, v2` (`key` alone = one empty value).
+type Line struct {
+	Key  string
+	Vals []string
 }
 
 func (t *Tab) Add(k string, vs ...string) {
+	if t.Kind == "F" {
+		t.Lines = append(t.Lines, Line{k, vs})
+		return
+	}
 	if t.Rows == nil {
 		t.Rows = map[string][]string{}
 	}
@@ -194,13 +216,47 @@ func (t *Tab) ConfigNode(directive string) config.Node {
 		return config.Node{Name: directive, Args: []string{"email_localpart"}}
 	case "O":
 		return config.Node{Name: directive, Args: []string{"email_localpart_optional"}}
+	case "F":
+		if t.Path == "" {
+			panic("vc15: table file without a path")
+		}
+		if t.Style%2 == 1 {
+			// the path as the `file` directive of the block instead of the inline argument
+			return config.Node{Name: directive, Args: []string{"file"}, Children: []config.Node{{Name: "file", Args: []string{t.Path}}}}
+		}
+		return config.Node{Name: directive, Args: []string{"file", t.Path}}
 	}
 	memMu.Lock()
 	memSeq++
 	id := fmt.Sprintf("t%d", memSeq)
 	memTabs[id] = t.Build()
+	t.memIDs = append(t.memIDs, id)
 	memMu.Unlock()
 	return config.Node{Name: directive, Args: []string{"c15mem", id}}
+}
+
+// ReleaseMem forgets the in-memory tables registered for configuration blocks of the case.
+func (cs *Case) ReleaseMem() {
+	memMu.Lock()
+	defer memMu.Unlock()
+	for _, t := range []*Tab{&cs.U2E, &cs.Prep} {
+		for _, id := range t.memIDs {
+			delete(memTabs, id)
+		}
+		t.memIDs = nil
+	}
+}
+
+// SmallEnvironment drops the environment variables the harness does not need: the configuration
+// parser builds a replacement table from the whole environment for every text it reads.
+func SmallEnvironment() {
+	for _, kv := range os.Environ() {
+		name := strings.SplitN(kv, "=", 2)[0]
+		if strings.HasPrefix(name, "VERIF_") || strings.HasPrefix(name, "GO") || name == "TMPDIR" || name == "HOME" || name == "PATH" {
+			continue
+		}
+		os.Unsetenv(name)
+	}
 }
 
 func ActionWord(s string) string {
@@ -214,25 +270,166 @@ func ActionWord(s string) string {
 	}
 }
 
-// ConfigNodes: the directives of the check other than the tables.
-func (cs *Case) ConfigNodes() []config.Node {
+// ---- the configuration block of the check, as text
+
+// Bits of Case.Omit: the directive is NOT written in the configuration block (possible only when
+// the case wants the documented default of that directive).
+const (
+	OmCheckHeader uint = 1 << iota
+	OmUnauth
+	OmNoMatch
+	OmErr
+	OmAuthNorm
+	OmFromNorm
+	OmU2E
+	OmPrep
+	OmAll = OmPrep<<1 - 1
+)
+
+// Omittable: the directives whose wanted value is the documented default
+// (check_header yes, every action reject, both normalisers auto, both tables identity).
+func (cs *Case) Omittable() uint {
+	var m uint
+	if cs.CheckHeader {
+		m |= OmCheckHeader
+	}
+	if cs.UA == "r" {
+		m |= OmUnauth
+	}
+	if cs.NA == "r" {
+		m |= OmNoMatch
+	}
+	if cs.EA == "r" {
+		m |= OmErr
+	}
+	if cs.AuthNorm == "auto" {
+		m |= OmAuthNorm
+	}
+	if cs.FromNorm == "auto" {
+		m |= OmFromNorm
+	}
+	if cs.U2E.Kind == "I" {
+		m |= OmU2E
+	}
+	if cs.Prep.Kind == "I" {
+		m |= OmPrep
+	}
+	return m
+}
+
+// Directives: the directives of the configuration block — those not omitted, in the order the
+// case asks for (Order seeds a permutation; 0 = the order of the documentation).
+func (cs *Case) Directives() []config.Node {
 	yn := "no"
 	if cs.CheckHeader {
 		yn = "yes"
 	}
-	return []config.Node{
-		{Name: "check_header", Args: []string{yn}},
-		{Name: "unauth_action", Args: []string{ActionWord(cs.UA)}},
-		{Name: "no_match_action", Args: []string{ActionWord(cs.NA)}},
-		{Name: "err_action", Args: []string{ActionWord(cs.EA)}},
-		{Name: "auth_normalize", Args: []string{cs.AuthNorm}},
-		{Name: "from_normalize", Args: []string{cs.FromNorm}},
+	omit := cs.Omit & cs.Omittable()
+	type dir struct {
+		bit  uint
+		node func() config.Node
 	}
+	plain := func(name string, arg string) func() config.Node {
+		return func() config.Node { return config.Node{Name: name, Args: []string{arg}} }
+	}
+	all := []dir{
+		{OmCheckHeader, plain("check_header", yn)},
+		{OmPrep, func() config.Node { return cs.Prep.ConfigNode("prepare_email") }},
+		{OmU2E, func() config.Node { return cs.U2E.ConfigNode("user_to_email") }},
+		{OmUnauth, plain("unauth_action", ActionWord(cs.UA))},
+		{OmNoMatch, plain("no_match_action", ActionWord(cs.NA))},
+		{OmErr, plain("err_action", ActionWord(cs.EA))},
+		{OmAuthNorm, plain("auth_normalize", cs.AuthNorm)},
+		{OmFromNorm, plain("from_normalize", cs.FromNorm)},
+	}
+	if cs.Order != 0 {
+		r := vh.NewRng(cs.Order)
+		for i := len(all) - 1; i > 0; i-- {
+			j := r.Intn(i + 1)
+			all[i], all[j] = all[j], all[i]
+		}
+	}
+	nodes := []config.Node{}
+	for _, d := range all {
+		if omit&d.bit == 0 {
+			nodes = append(nodes, d.node())
+		}
+	}
+	return nodes
+}
+
+func quoteArg(a string) string {
+	return "\"" + strings.ReplaceAll(a, "\"", "\\\"") + "\""
+}
+
+func renderNode(b *strings.Builder, n config.Node, indent string) {
+	b.WriteString(indent + n.Name)
+	for _, a := range n.Args {
+		b.WriteString(" " + quoteArg(a))
+	}
+	if n.Children == nil {
+		b.WriteString("\n")
+		return
+	}
+	b.WriteString(" {\n")
+	for _, c := range n.Children {
+		renderNode(b, c, indent+"    ")
+	}
+	b.WriteString(indent + "}\n")
+}
+
+func sameNodes(a, b []config.Node) bool {
+	if len(a) != len(b) {
+		return false
+	}
+	for i := range a {
+		if a[i].Name != b[i].Name || len(a[i].Args) != len(b[i].Args) || (a[i].Children == nil) != (b[i].Children == nil) {
+			return false
+		}
+		for j := range a[i].Args {
+			if a[i].Args[j] != b[i].Args[j] {
+				return false
+			}
+		}
+		if !sameNodes(a[i].Children, b[i].Children) {
+			return false
+		}
+	}
+	return true
+}
+
+// ConfigBlock: the configuration block of the check for this case.  The directives are written
+// out as configuration TEXT and read back with the server's own configuration parser; the block
+// it returns is what the check's Init is given.  A value the configuration syntax cannot carry
+// (a backslash before a quote, "{", an environment / macro reference) makes the parsed block
+// differ from the intended one: then the intended nodes are used directly (how = "nodes").
+// The block can be given to any number of instances (config.NewMap + Init each); ReleaseMem
+// afterwards.
+func (cs *Case) ConfigBlock() (block config.Node, text string, how string) {
+	want := cs.Directives()
+	var b strings.Builder
+	renderNode(&b, config.Node{Name: "check.authorize_sender", Children: want}, "")
+	text = b.String()
+	nodes, err := parser.Read(strings.NewReader(text), "c15.conf")
+	if err == nil && len(nodes) == 1 && nodes[0].Name == "check.authorize_sender" && len(nodes[0].Args) == 0 && sameNodes(nodes[0].Children, want) {
+		return nodes[0], text, "text"
+	}
+	return config.Node{Name: "check.authorize_sender", Children: want}, text, "nodes"
 }
 
 func (t *Tab) groups(tag string) string {
 	var b strings.Builder
 	fmt.Fprintf(&b, " | %s %s %s", strings.ToUpper(tag), t.Kind, B01(t.Err))
+	if t.Kind == "F" {
+		fmt.Fprintf(&b, " %d", t.Style)
+		for _, l := range t.Lines {
+			fmt.Fprintf(&b, " | %s %s", tag, vh.HexRunes(l.Key))
+			for _, v := range l.Vals {
+				b.WriteString(" " + vh.HexRunes(v))
+			}
+		}
+		return b.String()
+	}
 	for _, k := range t.Keys {
 		fmt.Fprintf(&b, " | %s %s", tag, vh.HexRunes(k))
 		for _, v := range t.Rows[k] {
@@ -258,6 +455,14 @@ func (t *Tab) refValues(k string) (vals []string, found bool) {
 			return []string{k}, true
 		}
 		return nil, false
+	case "F":
+		// every line of the file that starts with the key contributes its values
+		for _, l := range t.Lines {
+			if l.Key == k {
+				vals = append(vals, l.Vals...)
+			}
+		}
+		return vals, len(vals) > 0
 	}
 	v, ok := t.Rows[k]
 	return v, ok && len(v) > 0
@@ -279,6 +484,10 @@ type Case struct {
 	GTKnown            bool     // ground truth below is authoritative (well-formed rendering)
 	GTFrom             [][]Addr // per From field, in message order
 	GTSender           [][]Addr // per Sender field (0 or 1 address each)
+	// how the configuration block is written: directives left out (bits Om…; only those whose
+	// wanted value is the default count) and the order of the ones written
+	Omit  uint
+	Order uint64
 }
 
 func B01(b bool) string {
@@ -329,6 +538,7 @@ func OpLine(cs *Case, r *Run) string {
 	fmt.Fprintf(&b, "C15 run %s %s %s %s %s %s %s", B01(cs.CheckHeader), cs.UA, cs.NA, cs.EA, B01(cs.Conn),
 		vh.HexRunes(cs.User), vh.HexRunes(cs.MailFrom))
 	fmt.Fprintf(&b, " | N %s %s", cs.AuthNorm, cs.FromNorm)
+	b.WriteString(cs.omitGroup())
 	b.WriteString(cs.Prep.groups("p"))
 	b.WriteString(cs.U2E.groups("u"))
 	fnIn := map[string]bool{cs.MailFrom: true}
@@ -394,17 +604,24 @@ func SessionOpLine(cs *Case) string {
 	fmt.Fprintf(&b, "C15 session %s %s %s %s %s %s %s", B01(cs.CheckHeader), cs.UA, cs.NA, cs.EA, B01(cs.Conn),
 		vh.HexRunes(cs.User), vh.HexRunes(cs.MailFrom))
 	fmt.Fprintf(&b, " | N %s %s", cs.AuthNorm, cs.FromNorm)
+	b.WriteString(cs.omitGroup())
 	b.WriteString(cs.Prep.groups("p"))
 	b.WriteString(cs.U2E.groups("u"))
 	b.WriteString(replayTail(cs))
 	return b.String()
 }
 
+// omitGroup: ` | O <mask> <order>` — which directives the configuration block leaves out (the
+// model takes the default for those) and the seed of the order of the written ones.
+func (cs *Case) omitGroup() string {
+	return fmt.Sprintf(" | O %d %d", cs.Omit&cs.Omittable(), cs.Order)
+}
+
 // ParseOp rebuilds the case from a `C15 run …` or `C15 session …` line.
 func ParseOp(op string) (*Case, string, error) {
 	groups := strings.Split(op, " | ")
 	head := strings.Fields(groups[0])
-	if len(head) != 9 || head[0] != "C15" || (head[1] != "run" && head[1] != "session") {
+	if len(head) != 9 || head[0] != "C15" || (head[1] != "run" && head[1] != "session" && head[1] != "file") {
 		return nil, "", fmt.Errorf("bad head")
 	}
 	cs := &Case{CheckHeader: head[2] == "1", UA: head[3], NA: head[4], EA: head[5], Conn: head[6] == "1",
@@ -422,10 +639,19 @@ func ParseOp(op string) (*Case, string, error) {
 		switch t[0] {
 		case "N":
 			cs.AuthNorm, cs.FromNorm = t[1], t[2]
-		case "P":
-			cs.Prep.Kind, cs.Prep.Err = t[1], t[2] == "1"
-		case "U":
-			cs.U2E.Kind, cs.U2E.Err = t[1], t[2] == "1"
+		case "O":
+			m, _ := strconv.ParseUint(t[1], 10, 32)
+			cs.Omit = uint(m)
+			cs.Order, _ = strconv.ParseUint(t[2], 10, 64)
+		case "P", "U":
+			tab := &cs.Prep
+			if t[0] == "U" {
+				tab = &cs.U2E
+			}
+			tab.Kind, tab.Err = t[1], t[2] == "1"
+			if len(t) > 3 {
+				tab.Style, _ = strconv.Atoi(t[3])
+			}
 		case "p", "u":
 			var vs []string
 			for _, x := range t[2:] {
@@ -434,6 +660,10 @@ func ParseOp(op string) (*Case, string, error) {
 			tab := &cs.Prep
 			if t[0] == "u" {
 				tab = &cs.U2E
+			}
+			if tab.Kind == "F" {
+				tab.Lines = append(tab.Lines, Line{vh.UnhexRunes(t[1]), vs})
+				continue
 			}
 			if tab.Rows == nil {
 				tab.Rows = map[string][]string{}
@@ -601,8 +831,16 @@ func Monitor(out *vh.Out, cs *Case, r *Run, op string) {
 			out.Violation("C15/flag-without-reason", op, res.String())
 		}
 	}
+	// A stage lets the message through when it has nothing to say, and also when it does not ask
+	// for rejection although every action is reject (as configured, or by default when the
+	// directives are left out): a refusal that is only logged is an acceptance.
+	senderThrough := r.Sender.Pass() || (allReject && !r.Sender.Reject)
+	bodyThrough := r.Body.Pass() || (allReject && !r.Body.Reject)
+	if allReject && (senderThrough != r.Sender.Pass() || bodyThrough != r.Body.Pass()) {
+		out.Violation("C15/refusal-not-enforced", op, "actions are reject, result "+r.Sender.String()+" "+r.Body.String())
+	}
 	// envelope sender
-	if r.Sender.Pass() && cs.User != "" {
+	if senderThrough && cs.User != "" {
 		_, d, has := SplitLast(cs.MailFrom)
 		ok, how := RefEntitled(cs, cs.MailFrom, d, has)
 		if !ok {
@@ -611,7 +849,7 @@ func Monitor(out *vh.Out, cs *Case, r *Run, op string) {
 		out.Stat("monitor.envelope-pass.by-" + how)
 	}
 	// header author
-	if cs.CheckHeader && r.Body.Pass() && cs.User != "" {
+	if cs.CheckHeader && bodyThrough && cs.User != "" {
 		from, sender := cs.GTFrom, cs.GTSender
 		if !cs.GTKnown {
 			// mutated (possibly ill-formed) bytes: the only available reading is the library's
@@ -1210,7 +1448,207 @@ func GenCase(r *vh.Rng, smtpSafe bool) *Case {
 
 	// --- header
 	genHeader(r, cs, pick, trickName)
+
+	// --- tables kept in a file (the real table.file; not in SMTP sessions: the file module of
+	// a session's check cannot be reached to stop its reloader)
+	if !smtpSafe {
+		for _, t := range []*Tab{&cs.U2E, &cs.Prep} {
+			if (t.Kind == "S" || t.Kind == "M" || t.Kind == "T") && !t.Err && r.Chance(14) {
+				t.ToFile(r)
+			}
+		}
+	}
+
+	// --- how the configuration block is written: which of the directives that have their
+	// default value are left out (every combination), in which order the others stand
+	cs.Omit = uint(r.Intn(int(OmAll) + 1))
+	switch k := r.Intn(10); {
+	case k < 3:
+		cs.Omit = OmAll // nothing that has its default is written: the usual configuration
+	case k == 3:
+		cs.Omit = 0
+	}
+	if r.Chance(70) {
+		cs.Order = r.Next()>>1 | 1
+	}
 	return cs
+}
+
+// ---- tables kept in a file
+
+func fileToken(s string, isKey bool) bool {
+	if strings.TrimSpace(s) != s || strings.ContainsAny(s, "\r\n") {
+		return false
+	}
+	if isKey {
+		return s != "" && !strings.Contains(s, ":") && !strings.HasPrefix(s, "#")
+	}
+	return !strings.Contains(s, ",")
+}
+
+// ToFile turns a table with rows into the same table kept in a file (kind F), when the file
+// syntax can carry every key and value.  A row with several values is sometimes written as
+// several lines with the same key.
+func (t *Tab) ToFile(r *vh.Rng) bool {
+	var lines []Line
+	for _, k := range t.Keys {
+		vs := t.Rows[k]
+		if !fileToken(k, true) || len(vs) == 0 {
+			return false
+		}
+		for _, v := range vs {
+			if !fileToken(v, false) {
+				return false
+			}
+		}
+		if len(vs) > 1 && r.Chance(25) {
+			cut := 1 + r.Intn(len(vs)-1)
+			lines = append(lines, Line{k, append([]string{}, vs[:cut]...)}, Line{k, append([]string{}, vs[cut:]...)})
+			continue
+		}
+		lines = append(lines, Line{k, append([]string{}, vs...)})
+	}
+	t.Kind, t.Lines, t.Keys, t.Rows = "F", lines, nil, nil
+	t.Style = r.Intn(1 << 20)
+	return true
+}
+
+// RenderFile: the bytes of a table file with these entry lines.  The style seeds the layout:
+// comment lines, blank lines, blanks around the separators, `key` or `key:` for a line whose only
+// value is empty, CRLF line ends, a missing final newline.  Without entry lines the file has no
+// bytes at all, only comments, or only blank lines.
+func RenderFile(lines []Line, style int) []byte {
+	r := vh.NewRng(uint64(style)*2654435761 + 17)
+	var b bytes.Buffer
+	eol := "\n"
+	if r.Chance(15) {
+		eol = "\r\n"
+	}
+	comment := func() {
+		b.WriteString(r.Pick("# aliases", "#", "# alice: bob@example.com", "#alice@example.org: *", "# key: value, value") + eol)
+	}
+	if len(lines) == 0 {
+		switch style % 3 {
+		case 1:
+			comment()
+			if r.Bool() {
+				comment()
+			}
+		case 2:
+			b.WriteString(r.Pick("\n", "\n\n", "  \n", "\t\n \n"))
+		}
+		return b.Bytes()
+	}
+	if r.Chance(40) {
+		comment()
+	}
+	sp := func() string { return r.Pick("", "", " ", "  ", "\t") }
+	for i, l := range lines {
+		if r.Chance(15) {
+			comment()
+		}
+		if r.Chance(15) {
+			b.WriteString(r.Pick("", " ", "\t") + eol)
+		}
+		b.WriteString(sp() + l.Key)
+		if len(l.Vals) == 1 && l.Vals[0] == "" && r.Bool() {
+			b.WriteString(sp()) // the key alone
+		} else {
+			b.WriteString(sp() + ":")
+			for j, v := range l.Vals {
+				if j > 0 {
+					b.WriteString(",")
+				}
+				b.WriteString(sp() + v + sp())
+			}
+		}
+		if i == len(lines)-1 && r.Chance(20) {
+			return b.Bytes() // no newline at the end of the file
+		}
+		b.WriteString(eol)
+	}
+	if r.Chance(20) {
+		comment()
+	}
+	return b.Bytes()
+}
+
+var (
+	tmpMu    sync.Mutex
+	tmpDir   string
+	tmpSeq   int
+	fileTick int64
+)
+
+// TempDir: the directory the table files of this process live in.
+func TempDir() string {
+	tmpMu.Lock()
+	defer tmpMu.Unlock()
+	if tmpDir == "" {
+		d, err := os.MkdirTemp("", "verif-c15-")
+		if err != nil {
+			panic(err)
+		}
+		tmpDir = d
+	}
+	return tmpDir
+}
+
+// RemoveTempDir removes it (end of a test function).
+func RemoveTempDir() {
+	tmpMu.Lock()
+	defer tmpMu.Unlock()
+	if tmpDir != "" {
+		os.RemoveAll(tmpDir)
+		tmpDir = ""
+	}
+}
+
+func NewFilePath() string {
+	d := TempDir()
+	tmpMu.Lock()
+	defer tmpMu.Unlock()
+	tmpSeq++
+	return filepath.Join(d, fmt.Sprintf("t%d", tmpSeq))
+}
+
+// WriteFileAtomically puts the bytes at the path in one step (written beside it and renamed), with
+// a modification time that lies years in the past and moves forward by a second with every call:
+// table.file reloads a file only when its time stamp is not older than the one it loaded last and
+// the last change is at least half a reload interval ago — neither depends on the clock this way.
+func WriteFileAtomically(path string, content []byte) {
+	tmpMu.Lock()
+	fileTick++
+	tick := fileTick
+	tmpMu.Unlock()
+	tmp := path + ".new"
+	if err := os.WriteFile(tmp, content, 0o600); err != nil {
+		panic(err)
+	}
+	mt := time.Date(2001, 1, 1, 0, 0, 0, 0, time.UTC).Add(time.Duration(tick) * time.Second)
+	if err := os.Chtimes(tmp, mt, mt); err != nil {
+		panic(err)
+	}
+	if err := os.Rename(tmp, path); err != nil {
+		panic(err)
+	}
+}
+
+// Materialize writes the table files of the case (kind F) and returns what removes them again.
+func (cs *Case) Materialize() (cleanup func()) {
+	var paths []string
+	for _, t := range []*Tab{&cs.U2E, &cs.Prep} {
+		if t.Kind == "F" {
+			t.Path = NewFilePath()
+			WriteFileAtomically(t.Path, RenderFile(t.Lines, t.Style))
+			paths = append(paths, t.Path)
+		}
+	}
+	return func() {
+		for _, p := range paths {
+			os.Remove(p)
+		}
+	}
 }
 
 // ---- rendering
@@ -1678,4 +2116,390 @@ func Fixed() []*Case {
 		mk("alice", "ALICE@EXAMPLE.ORG", st, rest, nil, nil),
 		mk("", "alice@example.org", ident, "From: <alice@example.org>\r\n"+rest, [][]Addr{{alice}}, nil),
 	}
+}
+
+// ---------------------------------------------------------------- histories of an entitlement file
+
+// A History is the life of one `user_to_email file …` table under a running check: the file as
+// it is when the check is initialised, then edits of the file (entries added, moved, removed;
+// the file emptied, left with comments only, deleted, created again, damaged) and reloads.  After
+// every reload the check must decide as the CURRENT content of the file says.
+
+type FileStep struct {
+	Op     string // W write these lines, D delete the file, B write a file that cannot be parsed, R reload
+	Style  int
+	Lines  []Line
+	Probes []Probe // R: the messages tried after the reload
+}
+
+// Probe: a message tried against the check.  Base = the message of the base case; otherwise
+// MAIL FROM and a header with the one author From.
+type Probe struct {
+	Base     bool
+	MailFrom string
+	From     Addr
+}
+
+type History struct {
+	Base    *Case // configuration, user, base message; Base.U2E (kind F) is the file at initialisation
+	Present bool  // is the file there when the check is initialised?
+	Steps   []FileStep
+}
+
+// BadFile is a table file the module cannot parse (nothing before the colon).
+var BadFile = []byte("# half-written\nalice@example.org: alice@example.org\n: bob@example.com\n")
+
+func cloneLines(ls []Line) []Line {
+	out := make([]Line, 0, len(ls))
+	for _, l := range ls {
+		out = append(out, Line{l.Key, append([]string{}, l.Vals...)})
+	}
+	return out
+}
+
+// GenHistory draws a history.
+func GenHistory(r *vh.Rng) *History {
+	var base *Case
+	for {
+		base = GenCase(r.Fork(), false)
+		if !base.Conn || base.User == "" {
+			continue
+		}
+		t := &base.U2E
+		if t.Kind == "F" {
+			break
+		}
+		if (t.Kind == "S" || t.Kind == "M") && !t.Err && t.ToFile(r) {
+			break
+		}
+	}
+	if r.Chance(75) {
+		base.UA, base.NA, base.EA = "r", "r", "r"
+	}
+	h := &History{Base: base, Present: !r.Chance(12)}
+	nu := normOrSelf(base.AuthNorm, base.User)
+	initial := cloneLines(base.U2E.Lines)
+	cur := cloneLines(initial)
+	exists := h.Present
+
+	// everything the user's lines ever held: the addresses a stale table would still let through
+	var ever []string
+	note := func(ls []Line) {
+		for _, l := range ls {
+			if l.Key == nu {
+				ever = append(ever, l.Vals...)
+			}
+		}
+	}
+	note(initial)
+	mailFromN := normOrSelf(base.FromNorm, base.MailFrom)
+	newValue := func() string {
+		v := mailFromN
+		switch r.Intn(6) {
+		case 0:
+			if _, d, ok := SplitLast(mailFromN); ok && d != "" {
+				v = d
+			}
+		case 1:
+			v = "*"
+		case 2:
+			v = normOrSelf(base.FromNorm, randAddr(r).String())
+		case 3:
+			if len(base.GTFrom) > 0 && len(base.GTFrom[0]) > 0 {
+				v = normOrSelf(base.FromNorm, base.GTFrom[0][0].String())
+			}
+		}
+		if !fileToken(v, false) {
+			v = "alice@example.org"
+		}
+		return v
+	}
+	write := func(ls []Line) {
+		cur = cloneLines(ls)
+		exists = true
+		note(cur)
+		h.Steps = append(h.Steps, FileStep{Op: "W", Style: r.Intn(1 << 20), Lines: cloneLines(ls)})
+	}
+	userIdx := func() []int {
+		var ix []int
+		for i, l := range cur {
+			if l.Key == nu {
+				ix = append(ix, i)
+			}
+		}
+		return ix
+	}
+	edit := func() {
+		if !exists && r.Chance(70) {
+			// the file comes back
+			if r.Bool() {
+				write(initial)
+			} else {
+				write([]Line{{nu, []string{newValue()}}})
+			}
+			return
+		}
+		ix := userIdx()
+		switch k := r.Intn(13); {
+		case k < 2:
+			write(nil) // emptied: no bytes, comments only or blank lines only (the style says which)
+		case k == 2:
+			exists = false
+			h.Steps = append(h.Steps, FileStep{Op: "D"})
+		case k < 5 && len(ix) > 0:
+			// the user's lines go away
+			var keep []Line
+			for _, l := range cur {
+				if l.Key != nu {
+					keep = append(keep, l)
+				}
+			}
+			write(keep)
+		case k == 5 && len(ix) > 0:
+			// one entry of the user goes away
+			ls := cloneLines(cur)
+			i := ix[r.Intn(len(ix))]
+			j := r.Intn(len(ls[i].Vals))
+			ls[i].Vals = append(ls[i].Vals[:j], ls[i].Vals[j+1:]...)
+			if len(ls[i].Vals) == 0 {
+				if r.Bool() {
+					ls[i].Vals = []string{""} // the key stays, alone on its line
+				} else {
+					ls = append(ls[:i], ls[i+1:]...)
+				}
+			}
+			write(ls)
+		case k < 8:
+			// an entry is added: to a line of the user or as a new line
+			ls := cloneLines(cur)
+			if len(ix) > 0 && r.Bool() {
+				i := ix[r.Intn(len(ix))]
+				ls[i].Vals = append(ls[i].Vals, newValue())
+			} else if fileToken(nu, true) {
+				l := Line{nu, []string{newValue()}}
+				if r.Bool() {
+					ls = append(ls, l)
+				} else {
+					ls = append([]Line{l}, ls...)
+				}
+			}
+			write(ls)
+		case k == 8 && len(ix) > 0:
+			// the user's line is given to somebody else
+			ls := cloneLines(cur)
+			other := normOrSelf(base.AuthNorm, Users[r.Intn(len(Users))])
+			if other == nu || !fileToken(other, true) {
+				other = "somebody"
+			}
+			ls[ix[r.Intn(len(ix))]].Key = other
+			write(ls)
+		case k == 9:
+			write(initial)
+		case k == 10:
+			exists = true
+			h.Steps = append(h.Steps, FileStep{Op: "B"})
+		case k == 11 && len(ix) > 0:
+			// the key in a spelling the normalised user name does not have
+			ls := cloneLines(cur)
+			i := ix[r.Intn(len(ix))]
+			ls[i].Key = r.Pick(upper(nu), nu+".", "x"+nu, nu+"x")
+			if ls[i].Key == nu || !fileToken(ls[i].Key, true) {
+				ls[i].Key = "x" + strings.ReplaceAll(nu, ":", "")
+			}
+			write(ls)
+		default:
+			write([]Line{{nu, []string{newValue()}}, {"somebody", []string{"somebody@example.net"}}})
+		}
+	}
+	probes := func() []Probe {
+		ps := []Probe{{Base: true}}
+		for i, n := 0, 1+r.Intn(2); i < n && len(ever) > 0; i++ {
+			e := ever[r.Intn(len(ever))]
+			l, d, has := SplitLast(e)
+			switch {
+			case has && l != "" && d != "":
+			case e == "" || e == "*" || has:
+				l, d = "alice", "example.org"
+			default:
+				l, d = r.Pick("alice", "bob"), e // a domain entry (or a bare word)
+			}
+			a := Addr{l, d}
+			ps = append(ps, Probe{MailFrom: a.String(), From: a})
+		}
+		return ps
+	}
+	reload := func() {
+		h.Steps = append(h.Steps, FileStep{Op: "R", Probes: probes()})
+	}
+	for i, n := 0, 2+r.Intn(4); i < n; i++ {
+		edit()
+		if r.Chance(80) {
+			reload()
+		}
+		if r.Chance(10) {
+			reload() // a reload with nothing new
+		}
+	}
+	if h.Steps[len(h.Steps)-1].Op != "R" {
+		reload()
+	}
+	return h
+}
+
+func (p *Probe) group() string {
+	if p.Base {
+		return " | Q = ="
+	}
+	return " | Q " + vh.HexRunes(p.MailFrom) + " " + addrTok(p.From)
+}
+
+// OpLine: the history up to and including step `upto` (-1: nothing after the initialisation),
+// optionally with a final probe.  The Lean driver answers with the entries the table holds at
+// the end; the harness replays it (and tries the probe).
+func (h *History) OpLine(upto int, q *Probe) string {
+	cs := h.Base
+	var b strings.Builder
+	fmt.Fprintf(&b, "C15 file %s %s %s %s %s %s %s", B01(cs.CheckHeader), cs.UA, cs.NA, cs.EA, B01(cs.Conn),
+		vh.HexRunes(cs.User), vh.HexRunes(cs.MailFrom))
+	fmt.Fprintf(&b, " | N %s %s", cs.AuthNorm, cs.FromNorm)
+	b.WriteString(cs.omitGroup())
+	b.WriteString(cs.Prep.groups("p"))
+	b.WriteString(cs.U2E.groups("u"))
+	b.WriteString(replayTail(cs))
+	b.WriteString(" | I " + B01(h.Present))
+	for i := 0; i <= upto && i < len(h.Steps); i++ {
+		st := h.Steps[i]
+		switch st.Op {
+		case "W":
+			fmt.Fprintf(&b, " | W %d", st.Style)
+			for _, l := range st.Lines {
+				b.WriteString(" | l " + vh.HexRunes(l.Key))
+				for _, v := range l.Vals {
+					b.WriteString(" " + vh.HexRunes(v))
+				}
+			}
+		default:
+			b.WriteString(" | " + st.Op)
+		}
+	}
+	if q != nil {
+		b.WriteString(q.group())
+	}
+	return b.String()
+}
+
+// ParseHistory rebuilds a history (and the final probe, if the line has one).
+func ParseHistory(op string) (*History, *Probe, error) {
+	cs, kind, err := ParseOp(op)
+	if err != nil {
+		return nil, nil, err
+	}
+	if kind != "file" || cs.U2E.Kind != "F" {
+		return nil, nil, fmt.Errorf("not a file history")
+	}
+	h := &History{Base: cs, Present: true}
+	var q *Probe
+	started := false
+	for _, g := range strings.Split(op, " | ")[1:] {
+		t := strings.Fields(g)
+		if len(t) == 0 {
+			continue
+		}
+		if !started {
+			if t[0] == "I" && len(t) == 2 {
+				h.Present, started = t[1] == "1", true
+			}
+			continue
+		}
+		switch t[0] {
+		case "W":
+			st := FileStep{Op: "W"}
+			if len(t) > 1 {
+				st.Style, _ = strconv.Atoi(t[1])
+			}
+			h.Steps = append(h.Steps, st)
+		case "l":
+			if len(h.Steps) == 0 || h.Steps[len(h.Steps)-1].Op != "W" || len(t) < 2 {
+				return nil, nil, fmt.Errorf("line outside a write")
+			}
+			var vs []string
+			for _, x := range t[2:] {
+				vs = append(vs, vh.UnhexRunes(x))
+			}
+			st := &h.Steps[len(h.Steps)-1]
+			st.Lines = append(st.Lines, Line{vh.UnhexRunes(t[1]), vs})
+		case "D", "B", "R":
+			h.Steps = append(h.Steps, FileStep{Op: t[0]})
+		case "Q":
+			if len(t) != 3 {
+				return nil, nil, fmt.Errorf("bad probe")
+			}
+			if t[1] == "=" {
+				q = &Probe{Base: true}
+			} else {
+				p := strings.SplitN(t[2], "/", 2)
+				if len(p) != 2 {
+					return nil, nil, fmt.Errorf("bad probe")
+				}
+				q = &Probe{MailFrom: vh.UnhexRunes(t[1]), From: Addr{vh.UnhexRunes(p[0]), vh.UnhexRunes(p[1])}}
+			}
+		}
+	}
+	if !started {
+		return nil, nil, fmt.Errorf("no initialisation marker")
+	}
+	return h, q, nil
+}
+
+// ProbeCase: the case "this message against a table file with these lines".
+func (h *History) ProbeCase(p Probe, lines []Line) *Case {
+	cs := *h.Base
+	cs.U2E.Lines = lines
+	if !p.Base {
+		cs.MailFrom = p.MailFrom
+		cs.Raw = []byte("From: <" + quoteLocal(p.From.Local, false) + "@" + p.From.Domain + ">\r\nTo: someone@example.net\r\nSubject: hello\r\n")
+		cs.GTKnown, cs.GTFrom, cs.GTSender = true, [][]Addr{{p.From}}, nil
+	}
+	return &cs
+}
+
+// HistoryKeys: the keys of all entry lines the history wrote up to step `upto`, in order of
+// first appearance.
+func (h *History) HistoryKeys(upto int) []string {
+	var keys []string
+	seen := map[string]bool{}
+	add := func(ls []Line) {
+		for _, l := range ls {
+			if !seen[l.Key] {
+				seen[l.Key] = true
+				keys = append(keys, l.Key)
+			}
+		}
+	}
+	add(h.Base.U2E.Lines)
+	for i := 0; i <= upto && i < len(h.Steps); i++ {
+		add(h.Steps[i].Lines)
+	}
+	return keys
+}
+
+// DumpTable: what a multi table answers for these keys, canonically.
+func DumpTable(t module.MultiTable, keys []string) string {
+	if len(keys) == 0 {
+		return "-"
+	}
+	var parts []string
+	for _, k := range keys {
+		vs, err := t.LookupMulti(context.Background(), k)
+		if err != nil {
+			parts = append(parts, vh.HexRunes(k)+"=!")
+			continue
+		}
+		hv := make([]string, len(vs))
+		for i, v := range vs {
+			hv[i] = vh.HexRunes(v)
+		}
+		parts = append(parts, vh.HexRunes(k)+"="+strings.Join(hv, ","))
+	}
+	return strings.Join(parts, ";")
 }
